@@ -22,7 +22,7 @@ for n in pre:
     except Exception:
         pass
 out = io.StringIO()
-obs = {"raised": False, "exc": "", "name": "", "mod": "", "field": "", "attrs": [], "sink": "", "unknownmsg": False, "loaderr": 0, "groth": False}
+obs = {"raised": False, "exc": "", "name": "", "mod": "", "field": "", "attrs": [], "sink": "", "unknownmsg": False, "loaderr": 0, "groth": False, "afield": ""}
 try:
     with contextlib.redirect_stdout(out):
         import pysnark.runtime as rt
@@ -54,6 +54,26 @@ else:
     if grown: obs["sink"] = grown[0]
     elif obs["name"] == "qaptools": obs["sink"] = "pysnark.qaptools.backend" if os.path.exists("pysnark_eqs") else ""
     elif obs["name"] == "nobackend": obs["sink"] = "pysnark.nobackend"
+    # the field the ARTEFACTS declare (file-writing backends): prove a one-constraint circuit in the scratch cwd and decode the header
+    obs["afield"] = ""
+    if obs["name"] in ("snarkjs", "zkinterface", "zkifbellman", "zkifbulletproofs") and not obs["exc"]:
+        try:
+            with contextlib.redirect_stdout(out), contextlib.redirect_stderr(out):
+                be.prove()
+            if obs["name"] == "snarkjs":
+                from harness.decoders import iden3
+                pr = iden3.read_r1cs("circuit.r1cs")["header"]["prime"]
+                obs["afield"] = str(sum(v << (8 * i) for i, v in enumerate(pr)))
+            else:
+                from harness.decoders import zkif
+                fms = []
+                for f in ("circuit.zkif", "computation.zkif"):
+                    for m in zkif.read_file(f)["messages"]:
+                        if m["type"] == "CircuitHeader":
+                            fms.append(int.from_bytes(m["field_maximum"], "little") + 1)
+                obs["afield"] = str(fms[0]) if fms and all(x == fms[0] for x in fms) else "inconsistent:" + ",".join(map(str, fms)) + ("none" if not fms else "")
+        except Exception as e:
+            obs["afield"] = "error:" + type(e).__name__
 txt = out.getvalue()
 obs["unknownmsg"] = "unknown backend in environment variables" in txt
 obs["loaderr"] = txt.count("*** Error loading backend")
@@ -67,7 +87,7 @@ def run_one(args):
     os.makedirs(wd)
     sp = os.path.join(wd, "probe.py")
     open(sp, "w").write(PROBE)
-    paths = [common.REPO]
+    paths = [common.REPO, common.ROOT]           # ROOT last: only for the artefact decoders, imported after the selection
     if "flatbuffers" in cfg["loadable"]:
         paths.insert(0, os.path.join(common.ROOT, "shims"))
     if "libsnark" in cfg["loadable"]:
